@@ -1,6 +1,8 @@
 package main
 
 import (
+	"math"
+
 	"verif/harness/hlib"
 
 	"github.com/unixpickle/model3d/model2d"
@@ -68,6 +70,45 @@ func smallVec(c *hlib.Ctx, n int, md mode) []float64 {
 	return v
 }
 
+// scaleK draws the exponent of a dyadic scale factor: 0 for a third of the cases, otherwise
+// uniform in [-40, 40].  Multiplying by 2^k is exact in float64 (no entry leaves the normal
+// range: |entries| <= 2^6, products of at most four entries), so a case at scale 2^k is the
+// SAME rational case as far as the theorems are concerned and the exact mode stays exact.
+func scaleK(c *hlib.Ctx) int {
+	if c.Rng.Intn(3) == 0 {
+		return 0
+	}
+	return c.Rng.Intn(81) - 40
+}
+
+func scaleAll(xs []float64, k int) {
+	f := math.Ldexp(1, k)
+	for i := range xs {
+		xs[i] *= f
+	}
+}
+
+// scaleCase rescales the operands of one matrix case: a by 2^k; b by the same 2^k for "add"
+// (so that the sum stays exact) and by an independent power otherwise; the vector by an
+// independent power.
+func scaleCase(c *hlib.Ctx, dim string, op string, a, b, v []float64) {
+	k := scaleK(c)
+	if k == 0 {
+		return
+	}
+	scaleAll(a, k)
+	kb := k
+	if op != "add" {
+		kb = scaleK(c)
+	}
+	scaleAll(b, kb)
+	scaleAll(v, scaleK(c))
+	c.Stat("c17.scaled."+dim, 1)
+	if k <= -17 {
+		c.Stat("c17.scaled."+dim+"_below_2^-17", 1)
+	}
+}
+
 func runMatrices(c *hlib.Ctx, n int) {
 	for _, md := range []mode{modeQ, modeF} {
 		cnt := n / 4
@@ -95,6 +136,7 @@ func mat2Case(c *hlib.Ctx, md mode) {
 	}
 	b := smallMat(c, 2, md)
 	v := smallVec(c, 2, md)
+	scaleCase(c, "m2", op, a, b, v)
 	na := numerical.Matrix2{a[0], a[1], a[2], a[3]}
 	nb := numerical.Matrix2{b[0], b[1], b[2], b[3]}
 	ma := model2d.Matrix2{a[0], a[1], a[2], a[3]}
@@ -201,6 +243,7 @@ func mat3Case(c *hlib.Ctx, md mode) {
 	}
 	b := smallMat(c, 3, md)
 	v := smallVec(c, 3, md)
+	scaleCase(c, "m3", op, a, b, v)
 	var na, nb numerical.Matrix3
 	var ma, mb model3d.Matrix3
 	copy(na[:], a)
@@ -310,6 +353,11 @@ func mat4Case(c *hlib.Ctx, md mode) {
 			b[i] = anyFloat(c, 4)
 		}
 	}
+	var v4 []float64
+	if op == "mulcol" && md.name == "q" {
+		v4 = smallVec(c, 4, md)
+	}
+	scaleCase(c, "m4", op, a, b, v4)
 	var na, nb numerical.Matrix4
 	copy(na[:], a)
 	copy(nb[:], b)
@@ -335,7 +383,7 @@ func mat4Case(c *hlib.Ctx, md mode) {
 		if md.name != "q" {
 			return // the Go loop accumulates from 0 (res[i] += …): order differs from the row formula only in bit mode
 		}
-		v := smallVec(c, 4, md)
+		v := v4
 		emit(c, md, "m4 mulcol", md.nums(append(a, v...)...), func() string {
 			r := na.MulColumn(numerical.Vec4{v[0], v[1], v[2], v[3]})
 			return md.out(r[:]...)
